@@ -423,7 +423,15 @@ func (l *keyLedger) add(r *ev.Run, ksName string, c client, kind string, v []byt
 }
 
 // Run is the C02 monitor.
+// ProxyLayer, when set, runs the wire part of the monitor (real AcraServer instances with TLS identities) at the end of Run.
+var ProxyLayer func(r *ev.Run)
+
 func Run(r *ev.Run) {
+	defer func() {
+		if ProxyLayer != nil {
+			ProxyLayer(r)
+		}
+	}()
 	r.Rule = "ordered pairs (A,B) of 4 distinct clients whose storage key pair / symmetric key are rotated 0,1,2,3 times in interleaved order (HMAC key of the 3-rotation client rotated at the last step) on a v1 directory keystore, a v2 in-memory keystore and a v2 directory keystore; " +
 		"at every step every protect entry point (library, registry, translator incl. searchable, column encryptor chain incl. masking columns) protects fresh values carrying a unique marker MK<16 hex> (plus 1- and 5-byte values judged by equality) under every client; " +
 		"every reveal-type operation is run under every other client on those values (quick: on the final key state and a seeded third of the intermediate states; thorough: every state, three value sizes); " +
